@@ -155,7 +155,14 @@ double RandomTools::incompleteGamma (double x, double alpha, double ln_gamma_alp
 
   factor = exp(p * log(x) - x - g);
   if (x > 1 && x >= p)
+  {
+    /* far right tail: factor has underflowed to 0, the result (1 - factor * gin) is exactly 1.
+       The continued fraction must not be entered: its terms overflow (x^3 > DBL_MAX) and the
+       convergence test is then never met. */
+    if (factor == 0)
+      return 1;
     goto l30;
+  }
   /* (1) series expansion */
   gin = 1;  term = 1;  rn = p;
 l20:
